@@ -3,6 +3,9 @@ from .. import core
 from . import vmcommon as vc
 
 import sqfast
+import apigen
+from . import c18
+from ..core import hexf
 
 
 def error_oracle(case, obs):
@@ -31,7 +34,29 @@ def run(ctx):
     a, st1 = vc.gen_ast_cases(ctx, n_ast, 'a', depth=depth, errors=True)
     b, st2 = vc.gen_str_cases(ctx, n_str, 's', depth=depth, errors=True)
     cases += a + b
-    impl, model = vc.run_cases(ctx, cases)
+    # sequences of runs on one VM instance (through the embedder API): a failed run must not be blamed on,
+    # nor make fail, a later one
+    hg = apigen.ApiGen(ctx.rng.fork('runs'))
+    hist = []
+    for i in range(300 if quick else 5000):
+        ops, exp, tags = hg.history()
+        hist.append({'id': 'h%d' % i, 'ops': ops, 'exp': exp, 'tags': tags, 'text': ops, 'line': 'api h%d %s' % (i, hexf(ops))})
+    impl, model = vc.run_cases(ctx, cases + hist)
+    n_hist_bad = 0
+    for c in hist:
+        got = impl.get(c['id'])
+        bad = c18.check_case(c, got)
+        if bad:
+            n_hist_bad += 1
+            if n_hist_bad <= 2:
+                rep.violation('oracle', {'property': 'C04', 'kind': 'runs-on-one-vm', 'seed': ctx.seed, 'case': c['id'], 'history': c['ops'],
+                                         'difference': bad, 'implementation': (got or '')[:2000], 'line': c['line']})
+        elif model is not None and got != model.get(c['id']):
+            n_hist_bad += 1
+            if n_hist_bad <= 2:
+                rep.violation('correspondence', {'property': 'C04', 'kind': 'runs-on-one-vm model-vs-implementation', 'seed': ctx.seed, 'case': c['id'],
+                                                 'history': c['ops'], 'implementation': (got or '')[:2000], 'model': (model.get(c['id']) or '')[:2000],
+                                                 'line': c['line']})
     n_or = n_mm = n_err = n_ok = 0
     distinct = set()
     samples = []
@@ -62,7 +87,7 @@ def run(ctx):
                                                  'program': c['text'], 'implementation': (got or '')[:4000],
                                                  'model': (model.get(c['id']) or '')[:4000], 'line': c['line']})
     cov = {'evaluations': len(cases), 'distinct_nontrivial': len(distinct),
-           'rule': 'well-typed random programs in which one sub-expression is replaced by an ill-typed operation at an arbitrary position (straight-line code, inside loop/iteration behaviours, as last statement, inside try-catch, inside nested blocks); oracle: the reference interpreter knows which markers precede the failing statement — the run must end failed with a stack trace and exactly those markers, and error-free programs must end clean; non-trivial = programs in which the injected error is actually reached, distinct by text',
+           'rule': 'well-typed random programs in which one sub-expression is replaced by an ill-typed operation at an arbitrary position (straight-line code, inside loop/iteration behaviours, as last statement, inside try-catch, inside nested blocks, inside and below except__ handlers incl. nested handlers, exitWith bodies and frames with pending operands); plus histories of runs on one VM instance; oracle: the reference interpreter knows which markers precede the failing statement — the run must end failed with a stack trace and exactly those markers, and error-free programs must end clean; non-trivial = programs in which the injected error is actually reached, distinct by text',
            'samples': samples, 'oracle_failures': n_or, 'model_mismatches': n_mm, 'programs_reaching_the_error': n_err,
-           'programs_error_free': n_ok, 'error_codes_seen': kinds, 'size_histogram': vc.histogram(cases)}
-    return rep.finish(cov, ['spawned scripts and sequences of runs on one VM are covered by C12/C18', 'message texts are not compared, only numeric codes and levels'])
+           'programs_error_free': n_ok, 'run_histories': len(hist), 'run_history_failures': n_hist_bad, 'error_codes_seen': kinds, 'size_histogram': vc.histogram(cases)}
+    return rep.finish(cov, ['sequences of runs on one VM are exercised through the C API histories of C18 (return code per run)', 'message texts are not compared, only numeric codes and levels'])
